@@ -18,7 +18,7 @@
                      deletes it, abort after close does nothing) run over that log. *)
 From Coq Require Import List NArith ZArith Bool.
 From Verif Require Import Model.Matching Model.UploadSel Proofs.UploadSelBase Proofs.UploadSelSelector Proofs.UploadSelEncoder
-  Proofs.UploadSel Proofs.UploadSelMatching.
+  Proofs.UploadSel Proofs.UploadSelMatching Proofs.UploadSelNoDup.
 Import ListNotations.
 Local Open Scope N_scope.
 
@@ -114,6 +114,22 @@ Theorem visible_share_complete :
 Proof. exact visible_share_complete_full. Qed.
 Print Assumptions visible_share_complete.
 
+(* ---- the assertion of set_shareholders ---------------------------------------------------------------------- *)
+
+(* When every plan is a function of the share number (it is a dict) and every server allocates only share numbers
+   its query asked for, no two trackers ever hold a bucket for the same share, so set_shareholders' assertion
+   holds and the upload ends with success or an unhappiness error (or waits for an answer).  Before /repo 111e37b
+   a re-planned share got a second bucket and the upload died with AssertionError, nothing aborted. *)
+Theorem honest_upload_never_asserts :
+  forall c x, plans_functional x -> honest_run c x -> r_verdict (upload_run c x) <> VAssert.
+Proof. exact honest_upload_never_asserts_full. Qed.
+Print Assumptions honest_upload_never_asserts.
+
+Theorem honest_run_checker_sound :
+  forall c x, honest_runb c x = true -> plans_functional x /\ honest_run c x.
+Proof. exact honest_runb_sound. Qed.
+Print Assumptions honest_run_checker_sound.
+
 (* ---- non-vacuity ------------------------------------------------------------------------------------------ *)
 (* 4 servers (0,1,2 writable, 3 announced read-only and holding share 0), 3 shares, happy = 3.  Server 2 is full in
    the first round (allocates nothing), the second round has nowhere else to go: happiness 2 < 3, the buckets on
@@ -186,4 +202,23 @@ Example ex_replan_nonvacuous :
   let r := upload_run {| c_happy := 2%Z; c_total := 2; c_ro := []; c_rw := [0; 1; 2] |} ex_replan in
   verdict_eqb (r_verdict r) VSuccess = true /\ pairs_eqb (r_placed r) [(0, 0); (1, 1)] = true /\
   all_queries_eqb (r_queries r) [[(0, [0]); (2, [1])]; [(0, []); (1, [1]); (2, [])]] = true.
+Proof. vm_compute. repeat split; reflexivity. Qed.
+
+(* the hypotheses of honest_upload_never_asserts hold on the examples above ... *)
+Example ex_honest_nonvacuous :
+  honest_runb ex_cfg ex_ok = true /\ honest_runb ex_cfg ex_unhappy = true /\
+  honest_runb {| c_happy := 2%Z; c_total := 2; c_ro := []; c_rw := [0; 1; 2] |} ex_replan = true.
+Proof. vm_compute. repeat split; reflexivity. Qed.
+
+(* ... and cannot be dropped: a server that returns a writer for a share it was not asked for (server 1, share 0,
+   which server 0 also holds) makes the assertion fail; nothing is aborted then *)
+Definition ex_lying : script :=
+  {| x_existing := [(0, ExOk []); (1, ExOk [])];
+     x_rounds := [ {| r_plan := [(0, Some 0); (1, Some 1)]; r_resps := [(0, AlOk [] [0]); (1, AlOk [] [0; 1])] |} ];
+     x_writes := []; x_close := [] |}.
+
+Example ex_lying_nonvacuous :
+  let c := {| c_happy := 2%Z; c_total := 2; c_ro := []; c_rw := [0; 1] |} in
+  verdict_eqb (r_verdict (upload_run c ex_lying)) VAssert = true /\ honest_runb c ex_lying = false /\
+  r_log (upload_run c ex_lying) = [].
 Proof. vm_compute. repeat split; reflexivity. Qed.
